@@ -12,6 +12,8 @@ import Mathlib.Tactic.NormNum
 import Mathlib.Analysis.SpecialFunctions.Trigonometric.Basic
 import Mathlib.Analysis.SpecialFunctions.Trigonometric.Deriv
 import Mathlib.Topology.Order.IntermediateValue
+import Mathlib.Analysis.Calculus.Deriv.MeanValue
+import Mathlib.Analysis.Calculus.Deriv.Inv
 import Mathlib.Analysis.SpecialFunctions.Trigonometric.DerivHyp
 import Mathlib.Topology.Algebra.Polynomial
 
@@ -663,8 +665,8 @@ theorem cardano_other_root_double (p q r : ℝ) (hdet : 0 ≤ disc p q)
   rw [disc_real] at hdet
   have hprod : (r - y) ^ 2 * (2 * r + y) ^ 2 * (2 * y + r) ^ 2 = 0 := by
     have : 0 ≤ (r - y) ^ 2 * (2 * r + y) ^ 2 * (2 * y + r) ^ 2 := by positivity
-    nlinarith
-  have hd0 : q ^ 2 / 4 + p ^ 3 / 27 = 0 := by nlinarith
+    linarith
+  have hd0 : q ^ 2 / 4 + p ^ 3 / 27 = 0 := by linarith
   refine ⟨by rw [disc_real]; exact hd0, ?_⟩
   have hry : r - y ≠ 0 := sub_ne_zero.mpr hne
   have hcase : 2 * r + y = 0 ∨ 2 * y + r = 0 := by
@@ -1164,6 +1166,121 @@ theorem coth_guard_error_aux (x : ℝ) (hx : 0 < x) :
         _ = (Real.exp x * Real.exp (-x)) * Real.exp x := by ring
         _ = Real.exp x := by rw [hmul, one_mul]
     nlinarith
+
+
+
+/-! ### monotonicity of the explicit eFJC / tWLC models (where it holds) -/
+
+/-- `x·cosh x - sinh x > 0` for `x > 0` -/
+theorem x_cosh_sub_sinh_pos (x : ℝ) (hx : 0 < x) : 0 < x * Real.cosh x - Real.sinh x := by
+  have hmono : StrictMonoOn (fun t : ℝ => t * Real.cosh t - Real.sinh t) (Set.Ici 0) := by
+    apply strictMonoOn_of_deriv_pos (convex_Ici 0)
+    · fun_prop
+    · intro t ht
+      rw [interior_Ici] at ht
+      have hd : HasDerivAt (fun t : ℝ => t * Real.cosh t - Real.sinh t) (t * Real.sinh t) t := by
+        exact (((hasDerivAt_id' t).mul (Real.hasDerivAt_cosh t)).sub (Real.hasDerivAt_sinh t)).congr_deriv
+          (by ring)
+      rw [hd.deriv]
+      exact mul_pos ht (Real.sinh_pos_iff.mpr ht)
+  have := hmono (Set.mem_Ici.mpr le_rfl) (Set.mem_Ici.mpr hx.le) hx
+  simpa using this
+
+/-- the Langevin function `coth x - 1/x` is positive and strictly increasing on `x > 0` -/
+theorem langevin_pos (x : ℝ) (hx : 0 < x) : 0 < Real.cosh x / Real.sinh x - 1 / x := by
+  have hs : 0 < Real.sinh x := Real.sinh_pos_iff.mpr hx
+  have := x_cosh_sub_sinh_pos x hx
+  have e : Real.cosh x / Real.sinh x - 1 / x = (x * Real.cosh x - Real.sinh x) / (Real.sinh x * x) := by
+    field_simp
+  rw [e]; positivity
+
+theorem langevin_strictMono (x y : ℝ) (hx : 0 < x) (hxy : x < y) :
+    Real.cosh x / Real.sinh x - 1 / x < Real.cosh y / Real.sinh y - 1 / y := by
+  have hmono : StrictMonoOn (fun t : ℝ => Real.cosh t / Real.sinh t - 1 / t) (Set.Ioi 0) := by
+    apply strictMonoOn_of_deriv_pos (convex_Ioi 0)
+    · apply ContinuousOn.sub
+      · apply ContinuousOn.div Real.continuous_cosh.continuousOn Real.continuous_sinh.continuousOn
+        intro t ht; exact (Real.sinh_pos_iff.mpr ht).ne'
+      · apply ContinuousOn.div continuousOn_const continuousOn_id
+        intro t ht; exact (ne_of_gt ht)
+    · intro t ht
+      rw [interior_Ioi] at ht
+      have ht0 : t ≠ 0 := ne_of_gt ht
+      have hs : 0 < Real.sinh t := Real.sinh_pos_iff.mpr ht
+      have hd : HasDerivAt (fun t : ℝ => Real.cosh t / Real.sinh t - 1 / t)
+          ((Real.sinh t * Real.sinh t - Real.cosh t * Real.cosh t) / Real.sinh t ^ 2 - (-(1 / t ^ 2))) t := by
+        have h1 := (Real.hasDerivAt_cosh t).div (Real.hasDerivAt_sinh t) hs.ne'
+        have h2 : HasDerivAt (fun t : ℝ => 1 / t) (-(1 / t ^ 2)) t := by
+          have := hasDerivAt_inv ht0
+          simpa [one_div] using this
+        exact h1.sub h2
+      rw [hd.deriv]
+      have hcs : Real.cosh t ^ 2 - Real.sinh t ^ 2 = 1 := Real.cosh_sq_sub_sinh_sq t
+      have hlt : t < Real.sinh t := Real.self_lt_sinh_iff.mpr ht
+      have e : (Real.sinh t * Real.sinh t - Real.cosh t * Real.cosh t) / Real.sinh t ^ 2 - (-(1 / t ^ 2))
+          = (Real.sinh t ^ 2 - t ^ 2) / (Real.sinh t ^ 2 * t ^ 2) := by
+        field_simp
+        nlinarith
+      rw [e]
+      have ht' : 0 < t := ht
+      have hprod : 0 < (Real.sinh t - t) * (Real.sinh t + t) := mul_pos (by linarith) (by linarith)
+      apply div_pos
+      · nlinarith
+      · positivity
+  exact hmono (Set.mem_Ioi.mpr hx) (Set.mem_Ioi.mpr (lt_trans hx hxy)) hxy
+
+
+/-- `efjc_distance` below the overflow guard (`2·F·Lp/kT < 500`) is the product of the Langevin function and the
+    elastic factor, both positive and strictly increasing: strictly increasing in the force. -/
+theorem efjc_distance_strictMono_aux (F1 F2 Lp Lc St kT : ℝ) (h1 : 0 < F1) (h12 : F1 < F2) (hLp : 0 < Lp)
+    (hLc : 0 < Lc) (hSt : 0 < St) (hkT : 0 < kT) (hg : 2 * F2 * Lp / kT < 500) :
+    efjcDistance F1 Lp Lc St kT < efjcDistance F2 Lp Lc St kT := by
+  have h2 : 0 < F2 := lt_trans h1 h12
+  have hform : ∀ F : ℝ, 0 < F → 2 * F * Lp / kT < 500 → efjcDistance F Lp Lc St kT
+      = Lc * (Real.cosh (2 * F * Lp / kT) / Real.sinh (2 * F * Lp / kT) - 1 / (2 * F * Lp / kT)) * (1 + F / St) := by
+    intro F hF hgF
+    have ht : 0 < 2 * F * Lp / kT := by positivity
+    simp only [efjcDistance]
+    have e1 : (1.0 : ℝ) = 1 := by norm_num
+    have e2 : (2.0 : ℝ) = 2 := by norm_num
+    rw [e1, e2, coth_real, if_pos (by rw [abs_of_pos ht]; exact hgF)]
+    congr 2
+    field_simp
+  have ht1 : 0 < 2 * F1 * Lp / kT := by positivity
+  have ht12 : 2 * F1 * Lp / kT < 2 * F2 * Lp / kT := by
+    apply div_lt_div_of_pos_right _ hkT
+    nlinarith
+  rw [hform F1 h1 (lt_trans ht12 hg), hform F2 h2 hg]
+  have hL1 := langevin_pos _ ht1
+  have hL := langevin_strictMono _ _ ht1 ht12
+  have he : 1 + F1 / St < 1 + F2 / St := by
+    have := div_lt_div_of_pos_right h12 hSt; linarith
+  have he1 : 0 < 1 + F1 / St := by positivity
+  have := mul_lt_mul'' hL he hL1.le he1.le
+  have key := mul_lt_mul_of_pos_left this hLc
+  have ea : ∀ a b : ℝ, Lc * a * b = Lc * (a * b) := fun a b => mul_assoc _ _ _
+  rw [ea, ea]
+  exact key
+
+
+/-- tWLC below the critical force (constant coupling `g0 + g1·Fc`) inside the validity region
+    (`(g0 + g1·Fc)² < St·C`): strictly increasing in the force. -/
+theorem twlc_distance_strictMono_below_Fc_aux (F1 F2 Lp Lc St C g0 g1 Fc kT : ℝ) (h1 : 0 < F1) (h12 : F1 < F2)
+    (h2 : F2 ≤ Fc) (hLp : 0 < Lp) (hLc : 0 < Lc) (hkT : 0 < kT) (hC : 0 < C)
+    (hval : (g0 + g1 * Fc) ^ 2 < St * C) :
+    twlcDistance F1 Lp Lc St C g0 g1 Fc kT < twlcDistance F2 Lp Lc St C g0 g1 Fc kT := by
+  rw [twlcDistance_real, twlcDistance_real, max_eq_right (le_trans h12.le h2), max_eq_right h2]
+  have hF2 : 0 < F2 := lt_trans h1 h12
+  have hlt : kT / (F2 * Lp) < kT / (F1 * Lp) := by
+    apply div_lt_div_of_pos_left hkT (by positivity)
+    exact mul_lt_mul_of_pos_right h12 hLp
+  have hs : √(kT / (F2 * Lp)) < √(kT / (F1 * Lp)) := Real.sqrt_lt_sqrt (by positivity) hlt
+  have hden : 0 < -(g0 + g1 * Fc) ^ 2 + St * C := by linarith
+  have hk : 0 < C / (-(g0 + g1 * Fc) ^ 2 + St * C) := div_pos hC hden
+  have : C / (-(g0 + g1 * Fc) ^ 2 + St * C) * F1 < C / (-(g0 + g1 * Fc) ^ 2 + St * C) * F2 :=
+    mul_lt_mul_of_pos_left h12 hk
+  apply mul_lt_mul_of_pos_left _ hLc
+  linarith
 
 
 end Verif.C12
